@@ -90,8 +90,42 @@ where
     triple::<M::Probability>(m.quantile_function(from_u128(q)))
 }
 
+/// the `…_fast` constructors with `n` equal `f64` weights (D13 glue)
+pub trait ProbFast: Sized {
+    fn fast_ncdec<const P: usize>(syms: &[usize], n: usize) -> Result<Box<dyn DynModel>, ()>;
+    fn fast_ncenc<const P: usize>(syms: &[usize], n: usize) -> Result<Box<dyn DynModel>, ()>;
+}
+
+macro_rules! impl_prob_fast {
+    ($Pr:ty) => {
+        impl ProbFast for $Pr {
+            fn fast_ncdec<const P: usize>(syms: &[usize], n: usize) -> Result<Box<dyn DynModel>, ()> {
+                let w = vec![1.0f64; n];
+                NonContiguousCategoricalDecoderModel::<usize, $Pr, Vec<($Pr, usize)>, P>::from_symbols_and_floating_point_probabilities_fast::<f64>(
+                    syms.iter().copied(),
+                    &w,
+                    None,
+                )
+                .map(|m| Box::new(NcDecW::<$Pr, P> { m, view: false }) as Box<dyn DynModel>)
+            }
+            fn fast_ncenc<const P: usize>(syms: &[usize], n: usize) -> Result<Box<dyn DynModel>, ()> {
+                let w = vec![1.0f64; n];
+                NonContiguousCategoricalEncoderModel::<usize, $Pr, P>::from_symbols_and_floating_point_probabilities_fast::<f64>(
+                    syms.iter().copied(),
+                    &w,
+                    None,
+                )
+                .map(|m| Box::new(NcEncW::<$Pr, P> { m }) as Box<dyn DynModel>)
+            }
+        }
+    };
+}
+impl_prob_fast!(u8);
+impl_prob_fast!(u16);
+impl_prob_fast!(u32);
+
 /// Probability types; `u32` has no lookup models (`Probability: Into<usize>`).
-pub trait Prob: BitArray + AsPrimitive<usize> + 'static
+pub trait Prob: BitArray + AsPrimitive<usize> + ProbFast + 'static
 where
     usize: AsPrimitive<Self>,
 {
@@ -443,7 +477,7 @@ macro_rules! impl_lookup_wrappers {
             fn fast_nclookup<const P: usize>(syms: &[usize], n: usize) -> Option<Result<Box<dyn DynModel>, ()>> {
                 let w = vec![1.0f64; n];
                 Some(
-                    NonContiguousLookupDecoderModel::<usize, $Pr, Vec<($Pr, usize)>, Box<[$Pr]>, P>::from_symbols_and_floating_point_probabilities_fast(
+                    NonContiguousLookupDecoderModel::<usize, $Pr, Vec<($Pr, usize)>, Box<[$Pr]>, P>::from_symbols_and_floating_point_probabilities_fast::<f64>(
                         syms.iter().copied(),
                         &w,
                         None,
@@ -563,24 +597,15 @@ where
         Ctor::NcLookup { syms, probs, infer } => opt_built(Pr::new_nclookup::<P>(syms, probs, *infer)),
         Ctor::Uniform { range } => Built::Ok(Box::new(UniformW::<Pr, P> { m: UniformModel::<Pr, P>::new(*range) })),
         Ctor::Fast { kind, n, syms } => {
-            let w = vec![1.0f64; *n];
             match kind.as_str() {
-                "dec" => wrap(
-                    NonContiguousCategoricalDecoderModel::<usize, Pr, Vec<(Pr, usize)>, P>::from_symbols_and_floating_point_probabilities_fast(
-                        syms.iter().copied(),
-                        &w,
-                        None,
-                    )
-                    .map(|m| NcDecW::<Pr, P> { m, view: false }),
-                ),
-                "enc" => wrap(
-                    NonContiguousCategoricalEncoderModel::<usize, Pr, P>::from_symbols_and_floating_point_probabilities_fast(
-                        syms.iter().copied(),
-                        &w,
-                        None,
-                    )
-                    .map(|m| NcEncW::<Pr, P> { m }),
-                ),
+                "dec" => match Pr::fast_ncdec::<P>(syms, *n) {
+                    Ok(m) => Built::Ok(m),
+                    Err(()) => Built::Rejected,
+                },
+                "enc" => match Pr::fast_ncenc::<P>(syms, *n) {
+                    Ok(m) => Built::Ok(m),
+                    Err(()) => Built::Rejected,
+                },
                 _ => opt_built(Pr::fast_nclookup::<P>(syms, *n)),
             }
         }
@@ -899,7 +924,7 @@ where
             Ok(u) => {
                 // ppb and last_symbol are private: observe them through the public API
                 let (_, _, ppb) = u.quantile_function(Pr::zero());
-                let last = u.symbol_table().last().map(|t| t.0).unwrap_or(0);
+                let last = range - 1; // `new` asserts that `last_symbol` round-trips
                 h = digest_step(digest_step(digest_step(h, 1), nz::<Pr>(ppb)), last as u128);
                 for s in 0..range + 2 {
                     match guarded(|| enc_of::<_, P>(&u, s)) {
